@@ -193,6 +193,53 @@ def gen_ordinary_dag(rng, n, max_refs=4, deep=False):
     return nodes
 
 
+def near_twins(rng, exotic=False):
+    """A DAG of cells that agree in everything except ONE aspect a (wrong) cache key or shortcut could forget: the exact
+    bit length inside the last byte (same `tobytes()`), one data bit, the order / number / identity of the references,
+    ordinary vs exotic with identical bits and refs.  All are built in one process, each next to its twin, in random
+    order, followed by a cell that references them all (so a merged pair also shows in the parent and in to_boc)."""
+    nodes = [(ORD, rand_bits(rng, rng.choice([0, 1, 5, 8])), ()), (ORD, rand_bits(rng, rng.choice([1, 3, 16])) + '1', ())]
+    nodes.append((ORD, '0', (0, 1)))
+    nkids = len(nodes)
+    k = rng.choice([1, 2, 3, 4])
+    refs = tuple(rng.randrange(nkids) for _ in range(k))
+    n = rng.choice([1, 2, 3, 4, 5, 6, 9, 12, 1017, 1018])
+    n -= (n % 8 == 0)
+    s = rand_bits(rng, n)
+    room = 7 - len(s) % 8                       # zero bits that can be appended without touching the byte count
+    fam = [s] + [s + '0' * j for j in range(1, room + 1)][:3]
+    if s.endswith('0'):
+        fam.append(s[:-1])
+    if s:
+        fam.append(s[:-1] + ('1' if s[-1] == '0' else '0'))
+    fam.append(s + '1')
+    twins = [(ORD, b, refs) for b in dict.fromkeys(fam)]
+    twins += [(ORD, s, refs[::-1]), (ORD, s, refs[:-1]), (ORD, s, refs + refs[:1] if k < 4 else refs[:2]),
+              (ORD, s, tuple((r + 1) % nkids for r in refs))]
+    if exotic:
+        # an ORDINARY cell with exactly the bits and the reference of a Merkle proof / the bits of a library or pruned cell
+        db = DagBuilder()
+        for kk, bb, rr in nodes:
+            db.add(kk, bb, rr)
+        c = rng.randrange(nkids)
+        mp = mproof_bits(db.infos[c])
+        lib = bytes_to_bits(bytes([2]) + rng.randbytes(32))
+        pr = make_pruned_of(db.infos[c], 1)[1]
+        ex = [(ORD, mp, (c,)), (MPROOF, mp, (c,)), (ORD, lib, ()), (LIB, lib, ()), (ORD, pr, ()), (PRUNED, pr, ())]
+        if rng.random() < 0.5:
+            ex = [ex[1], ex[0], ex[3], ex[2], ex[5], ex[4]]
+        twins += ex
+    rng.shuffle(twins) if not exotic else None
+    for t in twins:
+        nodes.append(t)
+    top = list(range(nkids, len(nodes)))
+    for i in range(0, len(top), 4):
+        grp = tuple(top[i:i + 4])
+        if all(nodes[j][0] in (ORD,) for j in grp):
+            nodes.append((ORD, '1', grp))
+    return nodes
+
+
 def chain(depth, bits='', width=1):
     nodes = [(ORD, '1', ())]
     for i in range(depth):
@@ -334,6 +381,9 @@ def parse_dag_answer(ans):
     return out
 
 
+_AFTER_END = [0]
+
+
 def lib_build(nodes, route='ctor'):
     """Builds real library cells for every node; returns list of Cell or None (constructor raised)."""
     from pytoniq_core.boc.cell import Cell
@@ -358,7 +408,12 @@ def lib_build(nodes, route='ctor'):
                     b.store_ref(k)
                 c = b.end_cell()
                 # the builder stays in use after end_cell: the cell taken earlier must not notice
-                for f in (lambda: b.store_bit(1), lambda: b.store_ref(c)):
+                writes = [lambda: b.store_bit(1), lambda: b.store_ref(c), lambda: b.store_bytes(b'\xa5'), lambda: b.store_string('z'),
+                          lambda: b.store_snake_bytes(b'yz'), lambda: b.store_uint(5, 3), lambda: b.store_bits('01'), lambda: b.store_cell(c),
+                          lambda: b.store_slice(c.begin_parse()), lambda: b.store_coins(7), lambda: b.store_address(None)]
+                _AFTER_END[0] += 1
+                k0 = _AFTER_END[0] % len(writes)          # which kind of store comes FIRST after end_cell rotates
+                for f in writes[k0:] + writes[:k0]:
                     try:
                         f()
                     except Exception:
